@@ -28,6 +28,8 @@ KV_TEXT = {
     # values with separators inside brackets: call arguments, a closure body, a vec! literal
     "callcomma": "{k} = std::cmp::max(x, y)", "closureval": "{k} = Some(x).map(|v| {{ let w = v; w + 1 }}).unwrap_or(0)",
     "vecval": "{k} = vec![x, y].len()",
+    # a bracketed group whose string argument contains a closing bracket, separators and quotes
+    "callstrparen": '{k} = z.contains(r#") stop; "x", then"#)',
     "dbg": "{k}:? = x", "debug": "{k}:debug = x", "disp": "{k}:% = x", "display": "{k}:display = x",
     "shortdbg": "x:?", "err": "{k}:err = e", "sval": "{k}:sval = x", "serde": "{k}:serde = x",
     "ref=7": "ref = 7", "ref=0": "ref = 0", "ref=max": "ref = 4294967295", "ref=07": "ref = 07", "ref=x": "ref = x",
@@ -474,7 +476,7 @@ def _fmt(o):
                                                                     [(a, t.decode()) for a, t, _ in o["ins"]])
 
 
-def simple_stmt(uid, outcome, effect, mode, prefix="    ", multiline=False, suffix="", pad=0):
+def simple_stmt(uid, outcome, effect, mode, prefix="    ", multiline=False, suffix="", pad=0, url=False):
     """A plain statement lacking a reference, as a Rendered item (used by the directive files)."""
     macro = MACROS[uid % 3]
     if multiline:
@@ -482,7 +484,7 @@ def simple_stmt(uid, outcome, effect, mode, prefix="    ", multiline=False, suff
         tail = 's%d multi {}",\n        x\n    );' % uid
     else:
         body = '%s!("' % macro
-        tail = 's%d x%s");' % (uid, (" " + "p" * pad) if pad else "")
+        tail = 's%d x%s%s");' % (uid, (" " + "p" * pad) if pad else "", " see http://example.org/x" if url else "")
     text = prefix + body + tail + suffix
     r = Rendered()
     r.case = {"s": {"head": "bare", "target": "none", "kvs": [], "msg": "plain", "dir": effect, "trailing": "none",
@@ -531,7 +533,7 @@ def render_directive_case(pk, case, uid0):
             # delimiter (a character literal, a raw string)
             code = ("let _z%d = 0;", "let _q%d = '\"';", "let _r%d = r#\"say \"hi\"#;")[uid % 3] % uid
             pk.filler("    %s // breadlog:%s\n" % (code, ("ignore", "no-kvp")[uid % 2]))
-        elif kind in ("stmt", "stmtml", "stmttrail", "sameline", "stmt2"):
+        elif kind in ("stmt", "stmtml", "stmttrail", "sameline", "stmt2", "stmturl"):
             uid += 1
             prefix = "    "
             if kind == "sameline":
@@ -541,7 +543,7 @@ def render_directive_case(pk, case, uid0):
             # two statements on a line: the first one is long in some files, so that the second one starts hundreds of
             # bytes after the line above
             r = simple_stmt(uid, st["outcome"], eff, mode, prefix=prefix, multiline=(kind == "stmtml"),
-                            pad=((uid * 37) % 330 if (kind == "stmt2" and uid % 2 == 0) else 0))
+                            pad=((uid * 37) % 330 if (kind == "stmt2" and uid % 2 == 0) else 0), url=(kind == "stmturl"))
             pk.add_inline(r)
             if kind == "stmt2":
                 uid += 1
